@@ -80,7 +80,13 @@ pub fn out_kind<U: Elem>() -> OutKind {
 
 /// Does observed cell `got` satisfy the model expectation?
 pub fn satisfies(got: &Cell, exp: &Exp, cmp: Cmp, kind: OutKind) -> bool {
+    if exp.any {
+        return true;
+    }
     if kind == OutKind::Int {
+        if got.is_null() {
+            return exp.null_ok; // Option<integer> outputs can hold a null
+        }
         let g = match got {
             Cell::I(i) => *i as f64,
             _ => return false,
